@@ -28,6 +28,7 @@ static u8 T_res[SP_K][SP_N + 1];
 static u64 T_np[SP_K][SP_N + 1];
 static u64 T_garb[SP_K][SP_N + 1];
 static int sp_exhausted;
+static int sp_expect_a = -1;   /* apply mode every sub-rule call has to see (rules that do not switch actions on or off themselves); -1: no expectation */
 static unsigned long sp_calls;
 
 /* call log of the real run (who was asked what) */
@@ -50,6 +51,7 @@ u32 x_verif_sym(u32 k, u64 pos, u32 a, u32 m, u64 *np) {
   if (k >= SP_K || pos > sp_n) { printf("ASSERT-FAIL stub called out of range k=%u pos=%llu\n", k, (unsigned long long)pos); vf_fail++; *np = pos; return 0; }
 #endif
   CHECK(k < SP_K && pos <= sp_n, "sub-rule invoked at a position inside the input");
+  if (sp_expect_a >= 0) CHECK(a == (u32)sp_expect_a, "the rule hands its own apply mode on to its sub-rule");
 #if SP_LOG
   if (sp_nlog < SP_LOG) { sp_log_k[sp_nlog] = k; sp_log_a[sp_nlog] = a; sp_log_m[sp_nlog] = m; sp_log_pos[sp_nlog] = pos; }
   sp_nlog++;
@@ -79,6 +81,7 @@ u32 x_verif_sym2(u32 k, u64 pos, u64 end, u32 a, u32 m, u64 *np) {
   if (k >= SP_K2 || pos > end || end > sp_n) { printf("ASSERT-FAIL stub2 called out of range\n"); vf_fail++; *np = pos; return 0; }
 #endif
   CHECK(k < SP_K2 && pos <= end && end <= sp_n, "sub-rule invoked at a position inside its (sub-)input");
+  if (sp_expect_a >= 0) CHECK(a == (u32)sp_expect_a, "the rule hands its own apply mode on to its sub-rule (re-matched on a sub-input)");
   u32 r = T2_res[k][pos][end];
   if (r == 1) *np = T2_np[k][pos][end];
   else if (r >= 2) *np = T2_garb[k][pos][end];
@@ -141,6 +144,9 @@ static void sp_setup(void) {
       u64 hi = p <= sp_n ? sp_n : p;
       T_np[k][p] = IN(p, hi);
       T_garb[k][p] = IN(p, hi);
+#ifdef SP_LEAFSYM
+      if (T_res[k][p] == 0) T_garb[k][p] = p;   /* a rule with the simple interface has to leave the cursor alone when it fails */
+#endif
     }
 #ifdef SP_K2
   for (int k = 0; k < SP_K2; ++k)
